@@ -118,6 +118,7 @@ type LockEngine struct {
 	deferEntry   map[*ssa.Function]LS // entry lockset for closures run by defer
 	Unresolved   int                  // lock operations whose lock could not be identified
 	UnresolvedAt []string
+	acquirers    map[string]map[*ssa.Function]bool
 	LockOps      int
 }
 
@@ -211,13 +212,18 @@ func lockIdent(v ssa.Value) (string, bool) {
 	case *ssa.ChangeType:
 		return lockIdent(x.X)
 	case *ssa.Phi:
+		// edges that are fresh heap allocations (a lock created on this path
+		// and about to be published under the same identity) are ignored
 		var first string
-		for i, ed := range x.Edges {
+		for _, ed := range x.Edges {
+			if a, ok := ed.(*ssa.Alloc); ok && a.Heap {
+				continue
+			}
 			id, ok := lockIdent(ed)
 			if !ok {
 				return "", false
 			}
-			if i == 0 {
+			if first == "" {
 				first = id
 			} else if id != first {
 				return "", false
@@ -288,6 +294,7 @@ func (e *LockEngine) Run() {
 		e.entry[fn] = LS{}
 	}
 	for round := 0; round < 12; round++ {
+		e.Unresolved, e.UnresolvedAt = 0, nil
 		e.before = map[ssa.Instruction]LS{}
 		e.deferEntry = map[*ssa.Function]LS{}
 		for _, fn := range p.Funcs {
@@ -532,4 +539,43 @@ func (e *LockEngine) Summary(fn *ssa.Function) (acquired LS, released map[string
 		return LS{}, nil
 	}
 	return s.acquired, s.released
+}
+
+// Acquirers returns the module functions that (transitively through static
+// calls) acquire lock id themselves.
+func (e *LockEngine) Acquirers(id string) map[*ssa.Function]bool {
+	if e.acquirers == nil {
+		e.acquirers = map[string]map[*ssa.Function]bool{}
+	}
+	if m, ok := e.acquirers[id]; ok {
+		return m
+	}
+	m := map[*ssa.Function]bool{}
+	for _, fn := range e.P.Funcs {
+		allInstrs(fn, func(in ssa.Instruction) {
+			if c, ok := in.(*ssa.Call); ok {
+				if lid, kind, ok := e.lockOp(c); ok && lid == id && (kind == opLock || kind == opRLock) {
+					m[fn] = true
+				}
+			}
+		})
+	}
+	for changed := true; changed; {
+		changed = false
+		for _, fn := range e.P.Funcs {
+			if m[fn] {
+				continue
+			}
+			allInstrs(fn, func(in ssa.Instruction) {
+				if c, ok := in.(*ssa.Call); ok && !m[fn] {
+					if cal := staticCallee(c); cal != nil && m[cal] {
+						m[fn] = true
+						changed = true
+					}
+				}
+			})
+		}
+	}
+	e.acquirers[id] = m
+	return m
 }
